@@ -18,6 +18,7 @@ import B2Z.Model.SchemaJson
 import B2Z.Model.Rows
 import B2Z.Model.ChunkFile
 import B2Z.Model.Split
+import B2Z.Model.FixedFields
 /-! JSON line-protocol driver: one request object per line in, one JSON value per line out.
     Only `Model.*` (core Lean) is imported, so this also builds as a native executable. -/
 open Lean
@@ -555,6 +556,37 @@ def handle (j : Json) : Except String Json := do
       | .ok x => do let a ← x.getArr?; (a.toList.mapM (fun (e : Json) => e.getStr?)).map some
       | .error _ => pure none
     pure (optJson (fun r => Json.arr (r.map Json.str).toArray) (Rows.strRow1d w v))
+  | "fixed.alleles" =>
+    let w ← reqNat j "w"
+    let ref ← (← j.getObjVal? "ref").getStr?
+    let alt ← (← reqArr j "alt").toList.mapM (fun (e : Json) => e.getStr?)
+    pure (optJson (fun r => Json.arr (r.map Json.str).toArray) (Fixed.allelesRow w ref alt))
+  | "fixed.id" =>
+    let v : Option String ← match j.getObjVal? "id" with
+      | .ok .null => pure none
+      | .ok x => x.getStr?.map some
+      | .error _ => pure none
+    let r := Fixed.idCell v
+    pure (Json.arr #[Json.str r.1, Json.bool r.2])
+  | "fixed.filters" =>
+    let d ← (← reqArr j "declared").toList.mapM (fun (e : Json) => e.getStr?)
+    let pr ← (← reqArr j "present").toList.mapM (fun (e : Json) => e.getStr?)
+    pure (optJson (fun r => Json.arr (r.map Json.bool).toArray) (Fixed.filterRow d pr))
+  | "fixed.contig" =>
+    let d ← (← reqArr j "declared").toList.mapM (fun (e : Json) => e.getStr?)
+    let c ← (← j.getObjVal? "chrom").getStr?
+    pure (optJson (fun n => Json.num (JsonNumber.fromNat n)) (Fixed.contigCell d c))
+  | "fixed.gt" =>
+    let w ← reqNat j "w"; let n ← reqNat j "samples"
+    let v : Option (List (List Int)) ← match j.getObjVal? "value" with
+      | .ok .null => pure none
+      | .ok x => do let a ← x.getArr?; (a.toList.mapM intList).map some
+      | .error _ => pure none
+    match Fixed.gtRow w n v with
+    | none => pure (Json.str "error")
+    | some gt => pure (Json.mkObj [("gt", Json.arr (gt.map intsJson).toArray),
+        ("phased", Json.arr ((Fixed.phasedRow n v).map Json.bool).toArray),
+        ("mask", Json.arr ((Fixed.maskRow gt).map fun r => Json.arr (r.map Json.bool).toArray).toArray)])
   | "xp.hist" =>
     let c ← xpCfg j
     let hist ← (← reqArr j "history").toList.mapM xpCmd
